@@ -305,8 +305,8 @@ def walk_json(x):
         n = stack.pop()
         if isinstance(n, dict):
             yield n
-            for v in reversed(list(n.values())):
-                if isinstance(v, (dict, list)):
+            for k, v in reversed(list(n.items())):
+                if isinstance(v, (dict, list)) and not (isinstance(k, str) and k.startswith('_')):
                     stack.append(v)
         elif isinstance(n, list):
             for v in reversed(n):
